@@ -55,17 +55,8 @@ def encode_out(o):
 
 
 def neutralise(which):
-    """counterfactual attribution of known findings: disable exactly the listed cause (see known_findings.json)"""
-    import smoothmath.expression as E
-    if "D3" in which:
-        orig = getattr(E.NthRoot, "_reduce_nth_root_of_mth_power", None)
-        if orig is not None:
-            def patched(self):
-                inner = getattr(self, "_inner", None)
-                if isinstance(inner, E.NthPower) and self.n % 2 == 0 and inner.n % 2 == 0:
-                    return None
-                return orig(self)
-            E.NthRoot._reduce_nth_root_of_mth_power = patched
+    from harness import neutralise as nz
+    return nz.install(which)
 
 
 def main():
